@@ -164,7 +164,7 @@ class C17(Prop):
     id = "C17"
     n_quick = 400
     n_thorough = 6000
-    required_theorems = ["C17_ok", "C17_total", "C17_err", "C17_infix", "C17_render_partials_skeleton", "C17_render_skeleton"]
+    required_theorems = ["C17_ok", "C17_total", "C17_err", "C17_infix", "C17_render_partials_skeleton", "C17_render_skeleton", "C17_package_state_inventory"]
     rule = ("random template trees (main template, 0-5 partials in `<T>.partial/`, another template's partials, a partial that "
             "fails at execution) x request lists (empty, duplicates, unknown names, any order) x data; RenderPartials compared with "
             "Render of each partial alone and with the model. Non-trivial: request list of length >= 2; distinct by whole case.")
@@ -283,7 +283,7 @@ class C03(RenderProp):
     id = "C03"
     n_quick = 1500
     n_thorough = 25000
-    required_theorems = ["C03_freeze_captures", "C03_freeze_preserves", "C03_call_scope_and_frame", "C03_block_scope_and_frame", "C03_args_positional", "C03_compiler_state_per_template", "C03_call_attributes_frame", "C03_helper_bodies"]
+    required_theorems = ["C03_freeze_captures", "C03_freeze_preserves", "C03_call_scope_and_frame", "C03_block_scope_and_frame", "C03_args_positional", "C03_compiler_state_per_template", "C03_call_attributes_frame", "C03_helper_bodies", "C03_package_state_inventory"]
     rule = ("random programs of 1-3 (thorough: 1-4) mixin definitions (0-2 parameters; bodies printing parameters, page data and an invisible caller local; `block` placed 0, 1 or "
             "2 times, bare / inside a tag / inside a conditional; recursive mixins on a decreasing counter placing `block` before or after the self-call and forwarding or replacing "
             "it; calls of earlier mixins with the block forwarded once or twice) and calls from the main template (missing arguments, block bodies reading caller locals and loop "
@@ -298,7 +298,7 @@ class C06(RenderProp):
     id = "C06"
     n_quick = 2500
     n_thorough = 40000
-    required_theorems = ["C06_extract", "C06_void_table", "C06_quote_output", "C06_quote_lex", "C06_quote_no_trailing_brace", "C06_static_render", "C06_compiler_state_per_template"]
+    required_theorems = ["C06_extract", "C06_void_table", "C06_quote_output", "C06_quote_lex", "C06_quote_no_trailing_brace", "C06_static_render", "C06_compiler_state_per_template", "C06_package_state_inventory"]
     assumptions = ["quoteL / lexQ are hand-written models of quoteDelims (pug_parser.go) and of lexText/lexLeftDelim/lexRightDelim (parse/lex.go) restricted to the quoting "
                    "action; validated end to end by the correspondence"]
     rule = ("random tag trees (block-level/inline, void/non-void, depth <= 4 quick / 7 thorough, optional doctype) with literal texts from a "
@@ -1013,7 +1013,7 @@ class C13(Prop):
     id = "C13"
     n_quick = 2000
     n_thorough = 30000
-    required_theorems = ["C13_sep_shape", "C13_sep_left", "C13_sep_right", "C13_sep_effect", "C13_trim_left_ws_only", "C13_trim_right_ws_only", "C13_static_debug_render", "C13_static_modes_agree", "C13_static_debug_only_deletes", "C13_compiler_state_per_template"]
+    required_theorems = ["C13_sep_shape", "C13_sep_left", "C13_sep_right", "C13_sep_effect", "C13_trim_left_ws_only", "C13_trim_right_ws_only", "C13_static_debug_render", "C13_static_modes_agree", "C13_static_debug_only_deletes", "C13_compiler_state_per_template", "C13_package_state_inventory"]
     rule = ("every generated C02 / C06 / C03 program (with its neighbour templates) rendered by the real engine with Engine.Debug false and true; one in eight also prints an "
             "undefined variable unescaped, one in ten calls the module's asset() next to an asset manifest. Oracle on the two real outputs: "
             "equal after removing all white space, and the debug output is obtained from the production output by deleting white-space characters only. "
